@@ -110,6 +110,30 @@ func (r *run) relabel() {
 	if to == "" {
 		return
 	}
+	if r.sc.Profile == "connect" && r.uncertainAcceptance() {
+		// Some connection sent a CONNECT the broker may accept and was closed by
+		// the client before a single byte of the answer reached it (the first
+		// write to a peer that has gone away succeeds without being delivered).
+		// The broker may have accepted it - then its session, will, subscriptions
+		// and publishes are legitimate - or not; the history cannot tell, so the
+		// side-effect oracles, which assume that it was never accepted, do not
+		// apply to this run (the CONNACK table and the close oracle still do).
+		kept := r.out.Violations[:0]
+		for _, v := range r.out.Violations {
+			drop := false
+			for _, f := range from {
+				if v.Prop == f {
+					drop = true
+				}
+			}
+			if !drop {
+				kept = append(kept, v)
+			}
+		}
+		r.out.Violations = kept
+		r.out.Summary["run_tag"] = "acceptance-not-observable"
+		return
+	}
 	tag := ""
 	if r.sc.Profile == "connect" && r.malformedAccepted != "" {
 		// the session, subscriptions and publishes of a connection that was
@@ -130,6 +154,26 @@ func (r *run) relabel() {
 			}
 		}
 	}
+}
+
+// uncertainAcceptance: a connection whose first packet is a well-formed CONNECT
+// that the broker may answer with code 0, from which the client saw nothing
+// (no byte of a CONNACK on the wire) before it closed or reset it.
+func (r *run) uncertainAcceptance() bool {
+	for _, c := range r.h.Conns {
+		if len(c.Down) > 0 || c.downS.Pending() > 0 || !c.ClientEnded || len(c.Up) == 0 {
+			continue
+		}
+		first := c.Up[0].P
+		// (c.Up holds strictly parsed packets only: a CONNECT there is well-formed)
+		if first.Type != refmqtt.CONNECT {
+			continue
+		}
+		if codes, _, _ := r.expectConnect(first); codes[0] {
+			return true
+		}
+	}
+	return false
 }
 
 func trim(s string, n int) string {
